@@ -233,6 +233,10 @@ pub fn run(cfg: &RunCfg) -> Stats {
                         local.findings.push(f);
                     } else {
                         *local.foreign.entry(f.signature.clone()).or_insert(0) += 1;
+                        local
+                            .foreign_detail
+                            .entry(f.signature.clone())
+                            .or_insert_with(|| format!("{} || replay: {}", f.detail, f.replay));
                     }
                 }
                 if local.samples.len() < 2 && !w.log.is_empty() {
